@@ -21,6 +21,8 @@ type richOpts struct {
 	hostile   bool // text with leading combining marks, control characters, non-BMP runes
 	maxStyles int
 	maxItems  int
+	dangling  bool // some styles / regions inherit from styles that are NOT registered in Subtitles.Styles
+	breaks    bool // some texts contain line terminators (LF, CR, CR LF)
 }
 
 func randColor(r *rng) *astisub.Color {
@@ -261,6 +263,10 @@ func richSubs(r *rng, o richOpts) *astisub.Subtitles {
 		if i > 0 && r.chance(1, 3) {
 			st.Style = styles[r.intn(i)]
 		}
+		if o.dangling && r.chance(1, 2) {
+			// a parent the caller did not register (several distinct ones over the list)
+			st.Style = &astisub.Style{ID: fmt.Sprintf("unregistered%d", r.intn(4)), InlineStyle: randStyleAttrs(r, 0)}
+		}
 		styles = append(styles, st)
 		s.Styles[st.ID] = st
 	}
@@ -340,6 +346,9 @@ func richSubs(r *rng, o richOpts) *astisub.Subtitles {
 				w := words[r.intn(len(words))]
 				if o.hostile && r.chance(1, 2) {
 					w = hostileWords[r.intn(len(hostileWords))]
+				}
+				if o.breaks && r.chance(1, 3) {
+					w = r.pick("Knock,\nknock.", "a\rb", "two\r\nlines", "\nlead", "trail\n")
 				}
 				li := astisub.LineItem{Text: w}
 				if r.chance(1, 3) {
